@@ -37,6 +37,15 @@ def handle : List String → String
       let s := Model.C08.Handoff.run rf lw cap (Model.C08.Handoff.gateSchedule rf n k) (Model.C08.Handoff.init n cap)
       "refused=" ++ toString s.refused
     | _, _, _ => "bad-op"
+  | ["dialed", idle, own] =>
+    -- the dialing branch of the reuse loop (`Model.C08.DialHandOver.dialTurn`) over the regenerated fact about getNewConn
+    let idle? : Option (Option Bool) := match idle with
+      | "none" => some none | "1" => some (some true) | "0" => some (some false) | _ => none
+    match idle?, own with
+    | some i, "1" | some i, "0" =>
+      let r := Refine.C08.reuseLoopGen [Model.C08.DialHandOver.dialTurn (Gen.Facts.c08ReuseNewConnIsTheDialedOne.getD false) i (own == "1")]
+      showOutcome r.outcome ++ " attempts=" ++ toString r.attempts
+    | _, _ => "bad-op"
   | _ => "bad-op"
 
 end Driver.C08
